@@ -35,6 +35,15 @@ def main():
     try:
         rc, o = sh("git -C /repo worktree add --detach %s HEAD" % wt)
         assert rc == 0, o
+        # the demonstrations locate the library relative to their own path (<worktree>/_out/demo.py)
+        os.makedirs(os.path.join(wt, "_out"), exist_ok=True)
+        local_demo = os.path.join(wt, "_out", os.path.basename(demo))
+        with open(demo) as fp:
+            src = fp.read()
+        src = src.replace(os.path.dirname(os.path.dirname(demo)), wt)     # hard-coded worktree paths
+        with open(local_demo, "w") as fp:
+            fp.write(src)
+        demo = local_demo
         rc, o = sh("/venv/bin/python %s" % demo, cwd=wt, timeout=600)
         out["demo_clean_rc"] = rc
         rc, o = sh("git -C %s apply %s" % (wt, patch))
